@@ -382,6 +382,49 @@ def e2e_one(ctx, m, spec, events, evmeta, rng, paired=True):
 
 
 # ----------------------------------------------------------------------------
+# history independence of one long-lived TransmissionModel (spec/Functional.tla)
+# ----------------------------------------------------------------------------
+
+def history_scenarios():
+    from .. import history
+    from taurex.cache import OpacityCache
+    from taurex.data.profiles.chemistry import TaurexChemistry, ConstantGas
+    from taurex.data.profiles.temperature import Isothermal
+    from taurex.data import Planet
+    from taurex.contributions import AbsorptionContribution, RayleighContribution
+
+    def xs(T, P):
+        return 3e-27 * (P / 1e3) ** 0.3 * np.linspace(0.5, 2.0, len(WN))
+
+    class OneModel(history.Scenario):
+        dims = [[900.0, 1400.0, 2000.0], [0.8, 1.0, 1.3], [1e-5, 3e-4, 2e-3]]
+
+        def __init__(self, new_method):
+            self.new_method = new_method
+            self.name = 'transmission:%s' % ('new' if new_method else 'old')
+
+        def fresh(self, v):
+            reset_caches()
+            OpacityCache().add_opacity(LayerOpacity('H2O', WN, xs))
+            chem = TaurexChemistry(fill_gases=['H2', 'He'], ratio=0.17)
+            chem.addGas(ConstantGas('H2O', mix_ratio=v[2]))
+            m = make_transmission(7, chemistry=chem, temperature=Isothermal(T=v[0]),
+                                  planet=Planet(planet_mass=1.0, planet_radius=v[1]), pmin=1e-1, pmax=1e5,
+                                  new_method=self.new_method)
+            m.add_contribution(AbsorptionContribution())
+            m.add_contribution(RayleighContribution())
+            m.build()
+            return m
+
+        def set(self, m, d, value, values):
+            m[['T', 'planet_radius', 'H2O'][d]] = value
+
+        def observe(self, m):
+            g, depth, T, _ = m.model()
+            return dict(depth=np.asarray(depth), T=np.asarray(T), z=np.asarray(m.altitude_boundaries),
+                        L0=np.asarray(m.path_length[0]))
+    return [OneModel(False), OneModel(True)]
+
 
 def run(ctx):
     q = ctx.tier == 'quick'
@@ -420,6 +463,8 @@ def run(ctx):
             vec_abs(ctx, v)
     ctx.add_sample(dict(vector=vecs[len(vecs) // 2]))
     run_e2e(ctx, 60 if q else 600, 20 if q else 60)
+    from .. import history
+    history.run_history(ctx, history_scenarios(), 12 if q else 120)
     reset_caches()
 
 
